@@ -40,3 +40,44 @@ func ZZC07Check() {
 	zzReach("check-ok")
 	zzWitness("end")
 }
+
+// ZZC07CheckFiles: `evy fmt --check` over several files (plain and txtar, any
+// order): status zero exactly when every file is already formatted; no file
+// is touched.
+func ZZC07CheckFiles() {
+	texts := []string{"x := 1\nprint x\n", "x:=1\nprint   x\n", "func f\n    print 1\nend\n\nf\n", "if true\n\tprint 1\nend\n"}
+	formatted := []bool{true, false, true, false}
+	n := 1 + zzChoice("files", zzParam("FILES", 3))
+	var paths []string
+	var srcs []string
+	all := true
+	for k := 0; k < n; k++ {
+		t := zzChoice("text", len(texts))
+		name := "f" + string(rune('a'+k))
+		src := texts[t]
+		if zzChoice("txtar", 2) == 1 {
+			name += ".txtar"
+			src = "comment\n-- a.evy --\n" + texts[0] + "-- b.evy --\n" + texts[t] + "-- c.txt --\nx:=1\n"
+		} else {
+			name += ".evy"
+		}
+		path := zzFSPath(name)
+		zzFSPut(path, src, 0o644)
+		paths = append(paths, path)
+		srcs = append(srcs, src)
+		all = all && formatted[t]
+	}
+	err := (&fmtCmd{Check: true, Files: paths}).Run()
+	zzAssert((err == nil) == all, "C07 check: evy fmt -c over several files exits zero exactly when every file is already formatted")
+	if err != nil {
+		zzAssert(errors.Is(err, errNotFormatted), "C07 check: an unformatted file is reported as not formatted")
+		zzReach("files-unformatted")
+	} else {
+		zzReach("files-ok")
+	}
+	for k, path := range paths {
+		data, _, _ := zzFSGet(path)
+		zzAssert(data == srcs[k], "C07 check: --check leaves every file untouched")
+	}
+	zzWitness("end")
+}
